@@ -330,9 +330,9 @@ def _plan(seed, rounds):
         if sep and ntmode != 2:
             cnt = list(cnt)
             while sum(cnt) - K < 4 * d:
-                if fixed:
+                if fixed and d > 2:
                     d -= 1
-                else:
+                else:                       # also for a fixed block-size family once d is at its minimum (e.g. random sizes [4, 4]): grow the smallest class
                     cnt[cnt.index(min(cnt))] += 1
             assert d >= 2
         out.append("%d %d %s %d %d %d %d %d %d %d %d %d %d %d %d %d %s" % (pid[0], sd if sd is not None else seed + pid[0], fam, K, d, start, order, ntmode, shiftexp, unitexp, grid,
